@@ -69,7 +69,7 @@ def _external(smt2, timeout_s):
         os.unlink(path)
 
 
-def prove(pc, goal, timeout_ms=None, want_model=True):
+def prove(pc, goal, timeout_ms=None, want_model=True, external=True):
     """Is pc -> goal valid?  Returns dict(verdict=unsat|sat|unknown, backend, ms, model)."""
     timeout_ms = timeout_ms or QUICK_MS
     t0 = time.time()
@@ -85,6 +85,9 @@ def prove(pc, goal, timeout_ms=None, want_model=True):
         res["verdict"] = "sat"
         if want_model:
             res["model"] = s.model()
+    elif not external:
+        res["verdict"] = "unknown"
+        res["reason"] = s.reason_unknown()
     else:
         v, backend = _external("(set-logic ALL)\n" + s.to_smt2(), max(5, timeout_ms // 1000))
         res["verdict"] = v
